@@ -223,6 +223,11 @@ IMPORTS = {
     # property -> [(property the obligation is tagged with, name predicate, only from
     #               families that themselves serve this property)]
     "C10": [("C09", lambda name: _re.search(r"memo|_reset_evaluation_cache|history\[", name) is not None, False, lambda fam: True)],
+    # ... and conversely C09's families describe an existing object by what its constructor
+    # stored: that is only right if nothing rewrites structural fields or containers afterwards,
+    # which is the frame condition of C10 (static sites + the heap log of the paths C09 explores)
+    "C09": [("C10", lambda name: name.startswith("frame:"), False, lambda fam: fam == "frame-analysis"),
+            ("C10", lambda name: "/frame:" in name, True, lambda fam: False)],
     # the memo pre-condition of the evaluation-family methods is what makes the value / raise
     # post-conditions of the public entries true on every history: import it where it is used
     # C06 (all routes agree) is the corollary of the route contracts AND of the per-class
